@@ -81,7 +81,7 @@ class HRNP(BytesInterface):
         ), f"At least 12-bytes for HRNP required, got {len(data)} bytes instead"
         hrnp_packet_len = int.from_bytes(data[8:10], byteorder="big")
         assert len(data) >= hrnp_packet_len, f"packet seems incomplete"
-        return HRNP(
+        hrnp = HRNP(
             header=data[0:1],
             version=data[1:2],
             block_number=data[2],
@@ -92,6 +92,11 @@ class HRNP(BytesInterface):
             checksum=data[10:12],
             data=data[12:hrnp_packet_len],
         )
+        if hrnp.checksum_correct and hrnp.has_data():
+            # the constructor verifies the checksum over the re-serialised payload, which
+            # silently heals e.g. a corrupted HDAP checksum byte, received bytes must match it
+            hrnp.checksum_correct = hrnp.data.as_bytes() == data[12:hrnp_packet_len]
+        return hrnp
 
     def as_bytes(self, endian: Literal["big", "little"] = "big") -> bytes:
         return (
